@@ -619,11 +619,31 @@ def _alph_bell(tier, seed):
             "dtype": ["int64", "float64"]}
 
 
+def _alph_form(tier, seed):
+    return {"shapes": [list(s) for s in shapes("quick")],
+            "predicates": "all 0/1 matrices for X*Y <= 6; 3x3: the 16 matrices with zero first row and column (x2-3 distributions) + "
+                          + ("every 37th other matrix (skew)" if tier == "quick" else "all other matrices (g0)"),
+            "distributions": {"min(X,Y)=1": ["uniform", "g0"] if tier == "quick" else ["uniform", "skew", "zent", "g0"],
+                              "2x2": ["uniform", "skew", "zrow", "zent", "g0"],
+                              "2x3,3x2": ["g0"] if tier == "quick" else ["uniform", "skew", "zrow", "zent", "g0"]},
+            "methods": ["quantum_value", "NPA level 1 (converted)", "nonsignaling_value (XOR)", "nonsignaling_value (converted)",
+                        "classical_value (XOR)", "classical_value (converted)"]}
+
+
+def _alph_closed(tier, seed):
+    return {"chsh": "all 16 2x2 predicates, uniform distribution", "odd_cycle_n": [3, 5] if tier == "quick" else [3, 5, 7, 9],
+            "relabelling": ["none", "row 0 complemented", "column 1 complemented"], "reps": [1, 2]}
+
+
+def _alph_ctor(tier, seed):
+    return {"shapes": [list(s) for s in shapes(tier)], "kinds": KINDS, "tol": [None, 1e-6], "reps": [1, 2]}
+
+
 CLAUSES = [
     Clause("C08.bell_max", bm_cases, bm_check, tol="2e-3", chunk=2, weight=0.6, alphabets=_alph_bell, probe=3,
            doc="bell_inequality_max (m=2) = Jordan-lemma quantum maximum; >= best deterministic; pure correlators inside the "
                "certified Tsirelson bracket; arguments untouched"),
-    Clause("C08.formulations", fm_cases, fm_check, tol="scs(1e-3)", chunk=1, weight=1.0, probe=3,
+    Clause("C08.formulations", fm_cases, fm_check, tol="scs(1e-3)", chunk=1, weight=1.0, probe=3, alphabets=_alph_form,
            doc="quantum_value = NPA level 1 of to_nonlocal_game(); NS value = 1 for both encodings; classical values identical; "
                "ordering classical <= NPA1 <= NS"),
     Clause("C08.quantum_bracket", qb_cases, qb_check, tol="scs(1e-3)", weight=0.08, alphabets=_alph_games, probe=4,
@@ -632,8 +652,8 @@ CLAUSES = [
     Clause("C08.classical", cl_cases, cl_check, tol="alg(1e-9)", alphabets=_alph_games, probe=4,
            doc="classical_value = +-1 brute force = general-game brute force of the converted tensor; to_nonlocal_game tensor exact; "
                "repeated game = product-game brute force"),
-    Clause("C08.closed_forms", cf_cases, cf_check, tol="scs(1e-3)", chunk=2, probe=2,
+    Clause("C08.closed_forms", cf_cases, cf_check, tol="scs(1e-3)", chunk=2, probe=2, alphabets=_alph_closed,
            doc="CHSH family cos^2(pi/8); odd cycles cos^2(pi/4n), classical 1-1/2n; reps 1,2"),
-    Clause("C08.constructor", ct_cases, ct_check, tol="exact", probe=4,
+    Clause("C08.constructor", ct_cases, ct_check, tol="exact", probe=4, alphabets=_alph_ctor,
            doc="shape mismatch / negative entries / sum != 1 beyond tol raise ValueError; valid-within-tol games are accepted"),
 ]
